@@ -213,4 +213,18 @@ PROPS = {
         "thorough": {"runs": [{"test": "^TestC18$", "shards": 16, "checks": 2500, "timeout": 3400},
                               {"test": "^TestC18LeadingNewline$", "shards": 1, "checks": 200, "timeout": 600}]},
     },
+    "C12": {
+        "title": "Chat reaches exactly its audience",
+        "level": "exploration",
+        "rule": "rapid state machine over up to 6 clients with generated read-chat / send-chat / open-chat privileges and names of 1-40 arbitrary "
+                "bytes (13-column padding/truncation, invalid UTF-8): connect, disconnect, public send (plain / emote / options 0 / chat id 0), "
+                "invite-new-chat, invite-to-chat, join, leave, decline, set-subject, private send (plain / emote); messages of "
+                "{0,1,20,100,8000,8173..8175,8192,10000} bytes (crossing the 8192 limit); after every action each connected client's newly "
+                "received chat transactions (106/113/117/118/119) are compared as a multiset with a reference chat model (text re-implemented "
+                "from the protocol format); for a decline only the audience is asserted; non-trivial = some action whose audience was a "
+                "strict non-empty subset of the connected clients; distinct = hash(history, client specs)",
+        "assumptions": ["presence notifications (301/302) are ignored here (C13)", "refuse-private-chat option stays off (C13)", "only members send to / act on a chat; unknown chat ids are hostile input (C03)"],
+        "quick": {"runs": [{"test": "^TestC12$", "shards": 16, "checks": 100, "timeout": 600}]},
+        "thorough": {"runs": [{"test": "^TestC12$", "shards": 16, "checks": 2500, "timeout": 3400}]},
+    },
 }
